@@ -179,7 +179,8 @@ def after_prepare(vc):
         vc.check('conn-error/recorded', h1 in fut.attrs['_errors'])
 
 
-@harness('C19', 'prepared-statement-remembers-how-it-was-prepared', functions=['cassandra.query.PreparedStatement.from_message', 'cassandra.query.PreparedStatement.__init__'])
+@harness('C19', 'prepared-statement-remembers-how-it-was-prepared', functions=['cassandra.query.PreparedStatement.from_message', 'cassandra.query.PreparedStatement.__init__'],
+         native='contracts.native.c19:replay_remembers')
 def remembers(vc):
     """what a later re-PREPARE needs is what the statement remembers: ensures PreparedStatement.from_message hands the query id, the query string, the keyspace it was
     prepared against, the protocol version, the result metadata and its id on to the statement unchanged - for a statement with bind markers and for one without
